@@ -124,6 +124,7 @@ class World:
 
     def cross(self):
         MEM.avail = 7 * GB
+        self.polls_at_cross = MEM.polls
         self.frozen = {i for i, _ in self.produced}
 
     def do(self, step):
@@ -175,14 +176,27 @@ class World:
         raise ValueError(kind)
 
 
-def run_history(ld, n, hist, cross_at, res, upstream='map'):
+def run_history(ld, n, hist, cross_at, res, upstream='map', recover_at=None):
+    """`recover_at`: step before which free memory is plentiful again (another
+    process released it); the decision taken at the crossing stands: "once the
+    free-memory threshold is crossed no further examples are cached"."""
     case = {'n': n, 'history': [list(s) for s in hist], 'cross_at': cross_at,
-            'upstream': upstream}
+            'upstream': upstream, 'recover_at': recover_at}
     w = World(ld, n, upstream=upstream)
     requested = collections.Counter()
     for s, step in enumerate(hist):
         if cross_at is not None and s == cross_at:
             w.cross()
+        if recover_at is not None and s == recover_at and w.frozen is not None:
+            MEM.avail = 16 * GB
+            if MEM.polls == w.polls_at_cross:
+                # nobody looked at the memory while it was short (no miss, or
+                # the only access was refused before it got that far): for the
+                # cache the threshold was never crossed
+                w.frozen = None
+                res.count('memory_dips_nobody_could_see')
+            else:
+                res.count('histories_with_memory_recovering_after_the_threshold')
         produced_before = len(w.produced)
         try:
             got = w.do(step)
@@ -197,6 +211,8 @@ def run_history(ld, n, hist, cross_at, res, upstream='map'):
             break
         res.count('accesses', len(got))
         sig = {'access': step[0], 'after_threshold': w.frozen is not None}
+        if recover_at is not None and s >= recover_at and w.frozen is not None:
+            sig['memory_recovered'] = True
         bad = False
         for want_id, v in got:
             requested[want_id] += 1
@@ -547,6 +563,8 @@ def run_shard(spec, res):
                     continue
                 for cross in [None] + list(range(L)):
                     run_history(ld, 3, hist, cross, res)
+                    if cross is not None and cross + 1 < L:
+                        run_history(ld, 3, hist, cross, res, recover_at=cross + 1)
         res.sample({'n': 3, 'history': [['neg', 2, 0], ['idx', 2, 0]], 'cross_at': None,
                     'step_format': '(access kind, index, handle 0=original -1=latest copy)'})
     elif spec['what'] == 'rand':
@@ -554,8 +572,12 @@ def run_shard(spec, res):
         for t in range(spec['nrand'] // 3):
             hist = tuple(rng.choice(steps) for _ in range(40))
             cross = rng.choice([None, 0, 3, 10, 25])
+            recover = None
+            if cross is not None and t % 2:
+                recover = cross + rng.choice((1, 4, 11))
             run_history(ld, 6, hist, cross, res,
-                        upstream=rng.choice(('map', 'map-slice', 'unstorable')))
+                        upstream=rng.choice(('map', 'map-slice', 'unstorable')),
+                        recover_at=recover)
         res.sample({'n': 6, 'history': [list(s) for s in hist[:8]], 'cross_at': cross})
     else:
         for n in range(0, 8):
@@ -580,4 +602,5 @@ def replay(case, res):
         check_eager(ld, case['n'], case['eager'], res)
     else:
         run_history(ld, case['n'], tuple(tuple(s) for s in case['history']),
-                    case['cross_at'], res, upstream=case.get('upstream', 'map'))
+                    case['cross_at'], res, upstream=case.get('upstream', 'map'),
+                    recover_at=case.get('recover_at'))
